@@ -690,9 +690,58 @@ func c07Proportion(t *testing.T, tape *core.Tape, rcx *RunCtx, res *core.Result)
 	if rcx.Tier == "thorough" {
 		calls = 500
 	}
+	// generator-fed variant: before every Optimize the caller asks the library's random
+	// protein generator for the same protein again (same length, same seed). That call
+	// re-seeds the process-wide source with a constant, so the codon draws are only
+	// independent if Optimize really re-seeds from the (advancing) clock every time.
+	genFed := tape.Chance(35)
+	genLen, genSeed := 0, int64(0)
+	if genFed {
+		found := false
+		for try := 0; try < 60 && !found; try++ {
+			genLen = 8 + tape.Draw(24)
+			genSeed = int64(tape.Draw(1 << 30))
+			out, err := random.ProteinSequence(genLen, genSeed)
+			if err != nil {
+				continue
+			}
+			ok := true
+			for _, r := range out {
+				if x.sum[string(r)] <= 0 {
+					ok = false
+				}
+			}
+			if ok {
+				found = true
+				protein = out
+				L = len(out)
+			}
+		}
+		if !found {
+			genFed = false
+		} else {
+			calls *= 25 // short proteins: keep the number of draws per cell comparable
+			letters = nil
+			seenL := map[string]bool{}
+			for _, r := range protein {
+				if !seenL[string(r)] {
+					seenL[string(r)] = true
+					letters = append(letters, string(r))
+				}
+			}
+			sort.Strings(letters)
+			sc.Mode = fmt.Sprintf("proportionality batch fed by random.ProteinSequence(%d, %d) before every call", genLen, genSeed)
+			res.Count("probe_generator_fed_proportionality_batch", 1)
+		}
+	}
 	counts := map[string]map[string]int{}
 	for _, l := range letters {
 		counts[l] = map[string]int{}
+	}
+	for _, r := range protein {
+		if counts[string(r)] == nil {
+			counts[string(r)] = map[string]int{}
+		}
 	}
 	var firstBad string
 	var freePanic interface{}
@@ -706,6 +755,12 @@ func c07Proportion(t *testing.T, tape *core.Tape, rcx *RunCtx, res *core.Result)
 			d := time.Duration(1+tape.Draw(1<<20)) * time.Duration(1+tape.Draw(50000)) // never a stall: draws must come from distinct seeds
 			time.Sleep(d)
 			simTime += d
+			if genFed {
+				again, gerr := random.ProteinSequence(genLen, genSeed)
+				if gerr != nil || again != protein {
+					continue // not C07's subject; only identical requests are tallied
+				}
+			}
 			dna, err := codon.Optimize(protein, x.t)
 			if d := c07CheckDNA(x, protein, dna, err); d != "" && firstBad == "" {
 				firstBad = d
